@@ -4,7 +4,12 @@ import SignaloModel.Proofs.SmoothProofs
 /-!
 # C13 — Exponential smoothers obey their recurrences and stay in the data hull
 
-Property theorems for C13 (statements are printed by `#check`, axioms by `#check @Registry.emaRec_snoc
+The property theorems for C13: `#check` prints each statement, `#print axioms` its axioms;
+`bin/check C13` re-elaborates this file on every run and audits the axiom lists.
+-/
+open SignaloModel
+
+#check @Registry.emaRec_snoc
 #check @Registry.ema_state
 #check @Registry.ema_registry_correct
 #check @Registry.ema_registry_hull
@@ -12,20 +17,11 @@ Property theorems for C13 (statements are printed by `#check`, axioms by `#check
 #check @Registry.emedRec_snoc
 #check @Registry.emed_state
 #check @Registry.emedian_registry_correct
-#print axioms`;
-`bin/check C13` re-elaborates this file on every run and audits the axiom lists).
--/
-open SignaloModel
-
 #check @Smooth.ema_hull
 #check @Smooth.emed_hull
 #check @Smooth.ema_const
 #check @Smooth.emaStep_in
 
-#print axioms Smooth.ema_hull
-#print axioms Smooth.emed_hull
-#print axioms Smooth.ema_const
-#print axioms Smooth.emaStep_in
 #print axioms Registry.emaRec_snoc
 #print axioms Registry.ema_state
 #print axioms Registry.ema_registry_correct
@@ -34,3 +30,7 @@ open SignaloModel
 #print axioms Registry.emedRec_snoc
 #print axioms Registry.emed_state
 #print axioms Registry.emedian_registry_correct
+#print axioms Smooth.ema_hull
+#print axioms Smooth.emed_hull
+#print axioms Smooth.ema_const
+#print axioms Smooth.emaStep_in
